@@ -284,7 +284,9 @@ StoreOutcomes(c, s, F, nextgot) ==
                                                                           !.flag = c.flag, !.len = n]]),
                            <<Buf("set", n, FALSE, "leak")>>, "F2-negrev")}      \* the flush frees the memory, not the SetData entry
               ELSE IF x.st = "wild"
+                \* the key may be live (the flush frees the memory, only the SetData entry stays) or absent (both stay)
                 THEN {with(Plain(nr({Pt("STORED"), PErr}), s), sbuf("leak"), "F2-negrev"),
+                      with(Plain(nr({Pt("STORED")}), s), <<Buf("set", n, FALSE, "leak")>>, "F2-negrev"),
                       with(Closing(nr({PErr}), s), sbuf("leak"), "F2-negrev")}
               ELSE {IF c.noreply THEN with(Closing(<<>>, s), sbuf("leak"), "F2-negrev")
                                  ELSE with(Plain(<<One({PErr})>>, s), sbuf("leak"), "F2-negrev")}
